@@ -31,6 +31,7 @@ TInit ==
   /\ pre = [sys |-> All(A), bak |-> All(A), bdir |-> FALSE, svc |-> "stopped", pkg |-> All(A), rest |-> "r0"]
   /\ s0 = All(A) /\ rt = 0 /\ chk = FALSE
   /\ lnk = All(FALSE)        \* not an observable of the statement: the property is judged on contents only
+  /\ bakodd = FALSE          \* nor is the clock: whatever it did between two commands, the statement claims the same
 
 Reset ==
   /\ l <= Len(Rec) /\ Rec[l].e = "reset"
@@ -39,7 +40,7 @@ Reset ==
   /\ pre' = [sys |-> Rec[l].sys, bak |-> Rec[l].bak, bdir |-> Rec[l].bdir, svc |-> Rec[l].svc,
              pkg |-> Rec[l].pkg, rest |-> Rec[l].rest]
   /\ s0' = All(A) /\ rt' = 0 /\ chk' = FALSE
-  /\ l' = l + 1 /\ UNCHANGED lnk
+  /\ l' = l + 1 /\ UNCHANGED <<lnk, bakodd>>
 
 Cmd ==
   /\ l <= Len(Rec) /\ Rec[l].e = "cmd"
@@ -48,7 +49,7 @@ Cmd ==
   /\ pre' = Snapshot
   /\ LET g == NextRt(Rec[l].c, sys, rt, IF rt = 0 THEN All(A) ELSE s0)
      IN rt' = g[1] /\ s0' = g[2] /\ chk' = g[3]
-  /\ l' = l + 1 /\ UNCHANGED lnk
+  /\ l' = l + 1 /\ UNCHANGED <<lnk, bakodd>>
 
 TNext == Reset \/ Cmd
 TSpec == TInit /\ [][TNext]_tvars
